@@ -188,6 +188,7 @@ theorem keeps_addBlockGate {q d s s'} (h : addBlockGate q d s = .ok s') : Keeps 
 
 theorem keeps_startLoop {n s s'} (h : startLoop n s = .ok s') : Keeps s s' := by
   unfold startLoop at h
+  dsimp only at h
   split at h
   · cases h
   · injection h with h; subst h
@@ -200,7 +201,8 @@ theorem keeps_endLoop {s s'} (h : endLoop s = .ok s') : Keeps s s' := by
   · split at h
     · cases h
     · injection h with h; subst h
-      exact (keeps_of_fields (s' := { s with openLoops := _, loops := _ }) rfl rfl rfl rfl).trans (keeps_reserveAll _)
+      refine Keeps.trans ?_ (keeps_reserveAll _)
+      exact keeps_of_fields rfl rfl rfl rfl
 
 theorem keeps_addCds {b c l s s'} (h : addCds b c l s = .ok s') : Keeps s s' := by
   unfold addCds at h
@@ -422,11 +424,11 @@ theorem gridRow_shape (s : St) (hs : Shape s) (i : Nat) (hi : i < s.total) :
     intro col hcol
     apply cellOf_isSome
     rw [hs.cols col (by simpa using hcol)]; exact hi)
-  unfold gridRow
-  rw [hc]
+  simp only [gridRow, hc, Option.map_some]
+  refine ⟨_, rfl, ?_⟩
   by_cases hu : s.inUse.contains true
-  · exact ⟨_, by simp [hu], by simp [hu, hl]⟩
-  · exact ⟨_, by simp [hu], by simp [hu, hl]⟩
+  · simp only [hu, if_true, List.length_append, hl, List.length_reverse, List.length_singleton]
+  · simp only [hu]; simpa using hl
 
 theorem grid_shape (s : St) (hs : Shape s) :
     ∃ g, grid s = some g ∧ g.length = s.total ∧
